@@ -460,23 +460,50 @@ func checkC17(c *c17Case) (ds []hx.Discrepancy, info map[string]bool) {
 			}
 		}
 		names = append(names, "ZqMissing", c.Schema.Types[0].Name)
+		// the names of directives are not the names of types (unless a type has that name as well:
+		// then the answer is about the type)
+		names = append(names, "skip", "deprecated")
+		for _, d := range c.Schema.Dirs {
+			names = append(names, d.Name)
+		}
 		for _, n := range names {
 			res, rerr := root.ResolveExecutable(exe, "T", map[string]interface{}{"n": n})
-			var got interface{}
+			var got, gotKind interface{}
 			if d, _ := res["data"].(map[string]interface{}); d != nil {
 				if tm, _ := d["__type"].(map[string]interface{}); tm != nil {
-					got = tm["name"]
+					got, gotKind = tm["name"], tm["kind"]
 				}
 			}
 			want := interface{}(n)
-			if n == "ZqMissing" {
+			if c.Schema.Type(n) == nil {
 				want = nil
+			} else if wk := kindName(c.Schema, n); fmt.Sprint(gotKind) != wk && rerr == nil && got == want {
+				return []hx.Discrepancy{{Kind: "type-by-variable", Detail: fmt.Sprintf("__type(name: %q) answers with kind %v, the type of that name is a %s\n%s", n, gotKind, wk, sdl)}}, info
 			}
 			if got != want || rerr != nil {
 				return []hx.Discrepancy{{Kind: "type-by-variable", Detail: fmt.Sprintf("a kept request __type(name: $n) resolved with n=%q answered about %v (error %v); names asked in this order: %v\n%s", n, got, rerr, names, sdl)}}, info
 			}
 		}
 		info["kept-request-asks-for-types-by-variable"] = true
+	}
+	// a meta field selected twice under one response key is one entry holding both selections, and a
+	// selection that reaches __schema through fragments on __Schema is the selection written directly
+	{
+		ask := func(q string) string {
+			defer func() { _ = recover() }()
+			return hx.Show(hx.Norm(root.ResolveString(q, "", nil)))
+		}
+		direct := ask(`{__schema{queryType{name} directives{name} mutationType{name}}}`)
+		for _, q := range []string{
+			`{__schema{queryType{name}} __schema{directives{name} mutationType{name}}}`,
+			`{__schema{...S ... on __Schema{directives{name}} mutationType{name}}} fragment S on __Schema{queryType{name}}`,
+			`{...Q} fragment Q on ` + c.Schema.RootType("query") + `{__schema{queryType{name} ...S}} fragment S on __Schema{directives{name} ... on __Schema{mutationType{name}}}`,
+		} {
+			if got := ask(q); got != direct {
+				return []hx.Discrepancy{{Kind: "meta-field-selection-forms", Detail: fmt.Sprintf("the same selection of __schema written differently is answered differently:\n  %s\n  -> %s\n  direct -> %s\n%s", q, hx.Trunc(got, 700), hx.Trunc(direct, 700), sdl)}}, info
+			}
+		}
+		info["meta-field-selected-twice-and-through-fragments"] = true
 	}
 	for i, inc := range append([]string{c.InclDep}, c.Then...) {
 		one := *c
